@@ -5,6 +5,8 @@
 From Coq Require Import Extraction ExtrOcamlBasic NArith List.
 From AV Require Import Generated.Table Spec.Utf8 Spec.Vt Spec.Strip Model.Base Model.Utf8parse Model.Parser Model.Strip.
 
+From AV Require Import Spec.StyleRec Spec.SgrCodes Model.Text Model.Ls Spec.GitSyntax Model.Git.
+
 Extraction Language OCaml.
 
 Extraction "../ocaml/gen/extracted.ml"
@@ -13,4 +15,6 @@ Extraction "../ocaml/gen/extracted.ml"
   Spec.Vt.vt_step Spec.Vt.vt_init
   Spec.Strip.spec_strip Spec.Strip.strip_step Spec.Strip.s_init Spec.Utf8.valid_utf8
   Model.Strip.strip_bytes_pieces Model.Strip.strip_str_pieces Model.Strip.strip_bytes_chunks Model.Strip.strip_str_chunks
-  Model.Utf8parse.u8_new.
+  Model.Utf8parse.u8_new
+  Model.Ls.ls_parse Spec.SgrCodes.spec_ls Model.Git.git_parse Spec.GitSyntax.spec_git
+  Model.Text.white_space Spec.GitSyntax.is_white_space.
